@@ -1057,15 +1057,15 @@ func dumpNondet(w *World) {
 // c08Globals: package-level variables the consensus paths may write, each with the
 // reason it cannot make two nodes diverge. Anything else is reported.
 var c08Globals = map[string]string{
-	"x/oracle/keeper.agc":                 "oracle aggregator singleton: built from the committed store on first use (C14) and then updated only by block execution",
-	"x/oracle/keeper.agcCheckTx":          "CheckTx/simulate copy of the aggregator: never read by DeliverTx/EndBlock (R4 checks the copy does not alias the deliver state)",
-	"x/oracle/keeper.cs":                  "oracle cache singleton: filled from the committed store / block execution, committed to the store in EndBlock",
-	"x/oracle/keeper.updatedFeederIDs":    "per-block scratch list for an event attribute; reset in EndBlock",
-	"x/oracle/keeper/common.MaxNonce":     "mirrors the oracle params held in the store (setCommonParams)",
-	"x/oracle/keeper/common.ThresholdA":   "mirrors the oracle params held in the store (setCommonParams)",
-	"x/oracle/keeper/common.ThresholdB":   "mirrors the oracle params held in the store (setCommonParams)",
-	"x/oracle/keeper/common.MaxDetID":     "mirrors the oracle params held in the store (setCommonParams)",
-	"x/oracle/keeper/common.Mode":         "mirrors the oracle params held in the store (setCommonParams)",
+	"x/oracle/keeper.agc":               "oracle aggregator singleton: built from the committed store on first use (C14) and then updated only by block execution",
+	"x/oracle/keeper.agcCheckTx":        "CheckTx/simulate copy of the aggregator: never read by DeliverTx/EndBlock (R4 checks the copy does not alias the deliver state)",
+	"x/oracle/keeper.cs":                "oracle cache singleton: filled from the committed store / block execution, committed to the store in EndBlock",
+	"x/oracle/keeper.updatedFeederIDs":  "per-block scratch list for an event attribute; reset in EndBlock",
+	"x/oracle/keeper/common.MaxNonce":   "mirrors the oracle params held in the store (setCommonParams)",
+	"x/oracle/keeper/common.ThresholdA": "mirrors the oracle params held in the store (setCommonParams)",
+	"x/oracle/keeper/common.ThresholdB": "mirrors the oracle params held in the store (setCommonParams)",
+	"x/oracle/keeper/common.MaxDetID":   "mirrors the oracle params held in the store (setCommonParams)",
+	"x/oracle/keeper/common.Mode":       "mirrors the oracle params held in the store (setCommonParams)",
 }
 
 func runC08(r *Run) {
